@@ -83,7 +83,13 @@ func prepare(c *Conn, rangeStart, headerLen int64) {
 // VerifC18Write: a shape with one halt, one close action and one throttle,
 // all at symbolic byte offsets, a symbolic range start, and a sequence of
 // writes of head + body.
-func VerifC18Write() {
+func VerifC18Write() { verifC18Write(false) }
+
+// VerifC18Global: the same, for a shape with a small global (shared) bandwidth of which other
+// connections sharing the shape have already used a symbolic part in the current interval.
+func VerifC18Global() { verifC18Write(true) }
+
+func verifC18Write(global bool) {
 	slept = nil
 	drainAnywhere = vf.Param("drain-anywhere") == 1
 	span := int64(vf.Param("span")) // offsets live in [0, span]
@@ -94,6 +100,10 @@ func VerifC18Write() {
 	}
 	shape := &Shape{URLRegex: regex}
 	masks := []int{1, 2, 4, 3, 5, 6, 7}
+	if global {
+		masks = []int{0, 2, 4, 6}
+		shape.MaxBandwidth = 1 + int64(vf.Choice("global-bandwidth", 3)) // 1..3 bytes per interval
+	}
 	mask := masks[vf.Choice("features", vf.Param("feature-sets"))]
 	hasHalt, hasClose, hasThrottle := mask&1 != 0, mask&2 != 0, mask&4 != 0
 	var haltAt, closeAt, thrStart, thrEnd, thrBW int64
@@ -120,6 +130,11 @@ func VerifC18Write() {
 	rangeStart := off("range-start")
 	const headerLen = 2
 	_, c, s := setup(shape, rangeStart, headerLen)
+	if global {
+		used := vf.Int64("global-budget-used-by-other-connections")
+		vf.Assume(used >= 0 && used < shape.MaxBandwidth)
+		atomic.StoreInt64(&c.Context.GlobalBucket.fill, used)
+	}
 
 	// binary searches agree with a linear scan
 	la := -1
